@@ -286,10 +286,19 @@ impl Runner {
             exp.obs.wait_settled();
             let mut probe = http_get(&exp.addr, Duration::from_secs(5)).ok().and_then(|raw| parse_http(&raw)).filter(|r| r.complete).map(|r| r.status);
             if probe != Some(200) {
-                // once more, then look at the process
-                let again = http_get(&exp.addr, Duration::from_secs(3)).ok().and_then(|raw| parse_http(&raw)).filter(|r| r.complete).map(|r| r.status);
-                if again == Some(200) {
-                    probe = again;
+                // The property is about later requests being answered; one unlucky probe (the harness's own
+                // observation socket is re-created between requests) is not the exporter's fault: up to ten more over
+                // a second, with the observation socket known to be listening, then look at the process. An exporter
+                // that no longer serves fails all of them.
+                for _ in 0..10 {
+                    std::thread::sleep(Duration::from_millis(100));
+                    exp.obs.script.lock().unwrap().clear();
+                    exp.obs.wait_settled();
+                    let again = http_get(&exp.addr, Duration::from_secs(3)).ok().and_then(|raw| parse_http(&raw)).filter(|r| r.complete).map(|r| r.status);
+                    if again == Some(200) {
+                        probe = again;
+                        break;
+                    }
                 }
             }
             if probe != Some(200) {
